@@ -166,10 +166,6 @@ impl<'c> Src<'c> {
     pub fn bool(&mut self) -> bool {
         self.raw() >> 63 == 1
     }
-    /// true with probability about num/den
-    pub fn chance(&mut self, num: usize, den: usize) -> bool {
-        self.below(den) >= den - num
-    }
     /// a length in 0..=max biased toward small values
     pub fn len(&mut self, max: usize) -> usize {
         let a = self.below(max + 1);
